@@ -551,10 +551,19 @@ pub fn snapshot_dir(from: &Path, to: &Path) -> std::io::Result<()> {
         let entry = entry?;
         let ft = entry.file_type()?;
         let dst = to.join(entry.file_name());
-        if ft.is_dir() {
-            snapshot_dir(&entry.path(), &dst)?;
+        // a file that vanishes between listing and copying (SQLite removes -wal / -shm when the
+        // last connection closes, a finishing subscription removes its directory) is simply
+        // not part of the image, as if the image had been taken a moment later
+        let r = if ft.is_dir() {
+            snapshot_dir(&entry.path(), &dst)
         } else if ft.is_file() {
-            std::fs::copy(entry.path(), dst)?;
+            std::fs::copy(entry.path(), dst).map(|_| ())
+        } else {
+            Ok(())
+        };
+        match r {
+            Err(e) if e.kind() == std::io::ErrorKind::NotFound => {}
+            other => other?,
         }
     }
     Ok(())
